@@ -76,12 +76,13 @@ var (
 type link struct {
 	kind      string
 	tr        *transport.Transport
-	peer      io.ReadWriter // the peer's end of the byte stream of the current Open
-	killPeer  func()        // the peer goes away abruptly
-	closeDone chan struct{} // closed when the last closeTransport's Close call returned
-	freeze    func()        // the peer hangs: connection up, nothing processed any more
-	leave     func()        // the peer ends the session in an orderly way (everything it wrote before is on its way)
-	peerClose func()        // harness-side release of the current peer connection
+	peer      io.ReadWriter  // the peer's end of the byte stream of the current Open
+	killPeer  func()         // the peer goes away abruptly
+	srv       *sshsim.Server // the ssh kinds: the in-process server
+	closeDone chan struct{}  // closed when the last closeTransport's Close call returned
+	freeze    func()         // the peer hangs: connection up, nothing processed any more
+	leave     func()         // the peer ends the session in an orderly way (everything it wrote before is on its way)
+	peerClose func()         // harness-side release of the current peer connection
 	cleanup   []func()
 	pid       int    // child of the system transport (current Open)
 	pre       []byte // bytes the client already read during setup (after the readiness marker)
@@ -176,6 +177,7 @@ func newLink(kind string, readSize int, early *earlyPlan, sockTO ...time.Duratio
 			return l, fmt.Errorf("%w: %v", errSetup, e)
 		}
 		l.cleanup = append(l.cleanup, srv.Close)
+		l.srv = srv
 		sessCh := make(chan *sshsim.Session, 4)
 		release := make(chan struct{})
 		l.cleanup = append(l.cleanup, func() { close(release) })
